@@ -155,10 +155,9 @@ def fe_env(b, paths, extra=None):
     device by UUID through libblkid: a private cache file names the journal image."""
     e = dict(extra or {})
     if len(paths) > 1:
-        e["BLKID_FILE"] = paths[0] + ".blkid"
-        if not os.path.exists(e["BLKID_FILE"]):
-            with open(e["BLKID_FILE"], "w") as f:
-                f.write('<device DEVNO="0x0000" TIME="1600000000.0" UUID="%s" TYPE="jbd">%s</device>\n' % (JNL_UUID, os.path.abspath(paths[1])))
+        e["BLKID_FILE"] = paths[0] + ".blkid"        # written afresh for every run (libblkid rewrites its cache file)
+        with open(e["BLKID_FILE"], "w") as f:
+            f.write('<device DEVNO="0x0000" TIME="1600000000.0" UUID="%s" TYPE="jbd">%s</device>\n' % (JNL_UUID, os.path.abspath(paths[1])))
     return tool_env(b, e)
 
 
@@ -353,6 +352,9 @@ def run_case(b, work, tag, load_line, imgs0, lay, fe, tier, rng, max_points, max
         die_broken("recorder incomplete: replaying the recorded writes of %s does not reproduce its final image (%s)" % (fe, tag))
     c.nraw = len(raw)
     c.final_abs = lay.abstract(final)
+    if nd > 1 and not any(r["d"] == 1 for r in raw):
+        # not a verdict about recovery: the journal image was never opened for writing (its unix_open alone would have recorded an fsync)
+        die_broken("%s never opened the journal device image (-j / libblkid lookup through BLKID_FILE failed?): %s" % (fe, msg[-300:]))
     # abstract lines + position bookkeeping
     lines = [load_line]
     line_of_raw = []          # index into lines after which a crash following raw event r belongs
@@ -507,8 +509,12 @@ def model_check(ev, vd, tier, work):
     if tier == "thorough":
         runs.append(("protocol of the pinned tree, 3 blocks, plans <= 3 writes, 2 crashes", mc_consts(Blocks="{1, 2, 3}", MaxPlan=3, MaxCrash=2), MC_INV))
         runs.append(("protocol of the pinned tree, 2 blocks, plans <= 4 writes, 2 crashes", mc_consts(MaxPlan=4, MaxCrash=2), MC_INV))
-        runs.append(("without the fsync in unix_open: property-level invariants only, first run", mc_consts(OpenFsyncs="FALSE", MaxCrash=0),
+        runs.append(("without the fsync in unix_open, internal journal: property-level invariants only, first run", mc_consts(OpenFsyncs="FALSE", MaxCrash=0, ExtChoices="{FALSE}"),
                      ["Idempotent", "KeepsRequesting", "Done"]))
+        # with a journal device the journal's channel is closed without fsync, so that the release is durable at the END of the run (Done)
+        # does rest on unix_open's fsync of the journal device; the ordering invariants do not
+        runs.append(("without the fsync in unix_open, journal device: ordering invariants only, first run", mc_consts(OpenFsyncs="FALSE", MaxCrash=0, ExtChoices="{TRUE}"),
+                     ["Idempotent", "KeepsRequesting", "NeverEmptyBeforeDurable"]))
     for n, (label, consts, invs) in enumerate(runs):
         cfg = os.path.join(work, "MC_JournalRun_%d.cfg" % n)
         T.write_cfg(cfg, spec="Spec", constants=consts, invariants=invs)
